@@ -553,7 +553,10 @@ class AliasWorld(WorldBase):
         if st == 'raise':
             self.fault('failing-call')
             return 'raise-attr:' + type(attr).__name__
-        if not callable(attr) or isinstance(attr, type):
+        static = inspect.getattr_static(type(obj), member, None)
+        is_method = inspect.isfunction(static) or isinstance(static, (classmethod, staticmethod)) or inspect.ismethoddescriptor(static)
+        if not callable(attr) or isinstance(attr, type) or not is_method:
+            # a property / data attribute (e.g. a name that happens to be a callable supplied by the caller) is read, not called
             self.stats['member_ok:' + site] += 1
             self.collect(attr, site, 'attribute')
             return 'attr'
